@@ -633,7 +633,7 @@ theorem mkSlc_step (x : Expr) (pos size : Nat) (hx : WF x) (hs : 0 < size) (hp :
       simp only [size_slc] at hsz
       subst hsz
       exact Post_pure (by simp only [WF]; exact hw) rfl
-    · exact Post_error _ _
+    · exact Post_pure (by simp only [WF]; exact ⟨hx, hs, hp⟩) rfl
   · exact Post_ok (by simp only [WF]; exact ⟨hx, hs, hp⟩) rfl
 
 theorem slicer_step (x : Expr) (pos size : Nat) (hx : WF x) (hs : 0 < size) (hp : pos + size ≤ x.size) :
@@ -935,7 +935,9 @@ theorem eqn1_step (o : Op) (r : Expr) (size : Nat) (sf : Bool) (prop : Nat) (hr 
   have hself : Post size (Except.ok (uop o r size sf prop)) :=
     Post_ok (by simp only [WF]; exact ⟨hsz ▸ WF_size_pos r hr, hr, hsz⟩) rfl
   split
-  · exact hsz ▸ ih.callUop o _ hr
+  · apply Post_bind; intro res hres
+    have := ih.callUop o _ hr res hres
+    exact Post_pure ((WF_setSf _ _).mpr this.1) (by rw [size_setSf, this.2, hsz])
   · rename_i l s f
     apply Post_bind; intro l' hl'
     simp only [WF] at hr
@@ -1207,7 +1209,9 @@ theorem eqn2snd_step (opts : Opts) (o : Op) (l : Expr) (rv rs : Nat) (rf : Bool)
       exact Post_of_eq this (by simp only [size_comp]; omega)
     · exact htail
   · -- cst
-    exact Post_of_eq (ih.callOp o _ _ hl hr (by intro h; exact heq (by omega))) hs.symm
+    apply Post_bind; intro res hres
+    have := ih.callOp o _ _ hl hr (by intro h; exact heq (by omega)) res hres
+    exact Post_pure ((WF_setSf _ _).mpr this.1) (by rw [size_setSf, this.2]; exact hs.symm)
   · exact htail
 
 /-- `c = comp(n); c[0:n] = cst(0,n); c[a:b] = piece; c.simplify()` — the mask / shift rules -/
@@ -1685,8 +1689,9 @@ theorem simplify_step (o : Opts) (e : Expr) (he : WF e) : Post e.size (simplify 
             · rfl
         · split
           · split
-            · refine Post_of_eq (ih.callOp oo l' r' hlw hrw (by intro h; omega)) ?_
-              rw [resSize_congr oo hls]; exact hs.symm
+            · apply Post_bind; intro res hres
+              have := ih.callOp oo l' r' hlw hrw (by intro h; omega) res hres
+              exact Post_pure ((WF_setSf _ _).mpr this.1) (by rw [size_setSf, this.2, resSize_congr oo hls]; exact hs.symm)
             · split
               · rename_i hm
                 simp only [beq_iff_eq] at hm
